@@ -609,6 +609,36 @@ theorem quorumW_values_batching_independent_refuted :
     decide
 
 
+/-- REFUTED for `collect_quorum_with_response` on a totally ordered input, already with `min = max`:
+the output stream keeps the input's `TotalOrder` type, but the emitted *sequence* depends on the
+batching — the values of one key come out together in the tick where the key reaches `min`, so the
+interleaving of different keys follows the batch boundaries (the multiset is the same).
+Witness: `min = max = 2`, responses `(0, Ok 1), (1, Ok 2), (1, Ok 3), (0, Ok 4)`. -/
+theorem quorumW_output_order_batching_independent_refuted :
+    ∃ (b₁ b₂ : List (List (Resp Nat Nat Nat))),
+      QuorumInput 2 2 b₁ ∧ QuorumInput 2 2 b₂ ∧ b₁.flatten = b₂.flatten ∧
+      (runW 2 2 {} b₁).flatten.Perm (runW 2 2 {} b₂).flatten ∧
+      (runW 2 2 {} b₁).flatten ≠ (runW 2 2 {} b₂).flatten := by
+  have hin : ∀ k : Nat, total ([(0, .ok 1), (1, .ok 2), (1, .ok 3), (0, .ok 4)] : List (Resp Nat Nat Nat)) k ≤ 2 := by
+    intro k
+    by_cases h0 : k = 0
+    · subst h0; decide
+    · by_cases h1 : k = 1
+      · subst h1; decide
+      · have e0 : ¬ 0 = k := fun h => h0 h.symm
+        have e1 : ¬ 1 = k := fun h => h1 h.symm
+        simp [total, List.countP_cons, e0, e1]
+  refine ⟨[[(0, .ok 1), (1, .ok 2), (1, .ok 3), (0, .ok 4)]],
+    [[(0, .ok 1), (1, .ok 2), (1, .ok 3)], [(0, .ok 4)]], ⟨by decide, by decide, hin⟩,
+    ⟨by decide, by decide, hin⟩, rfl, ?_, by decide⟩
+  have e1 : (runW 2 2 {} ([[(0, .ok 1), (1, .ok 2), (1, .ok 3), (0, .ok 4)]] : List (List (Resp Nat Nat Nat)))).flatten
+      = [(0, 1), (1, 2), (1, 3), (0, 4)] := by decide
+  have e2 : (runW 2 2 {} ([[(0, .ok 1), (1, .ok 2), (1, .ok 3)], [(0, .ok 4)]] : List (List (Resp Nat Nat Nat)))).flatten
+      = [(1, 2), (1, 3), (0, 1), (0, 4)] := by decide
+  rw [e1, e2]
+  decide
+
+
 end
 section Join
 variable {κ M V : Type} [DecidableEq κ]
@@ -708,6 +738,108 @@ theorem join_no_output_for_answered_keys (ms : List (κ × M)) (seen : List κ) 
   obtain ⟨p, ⟨_, hp⟩, r, _, rfl⟩ := hx
   simpa using hp
 
+/-! ### the whole run: every response meets its request's metadata exactly once -/
+
+theorem aux_runJ_none (k : κ) (ts : List (List (κ × V) × List (κ × M))) :
+    ∀ (rem : List (κ × M)), (ts.flatMap (·.1)).filter (fun r => r.1 = k) = [] →
+      (runJ rem ts).flatten.filter (fun x => x.1 = k) = [] := by
+  induction ts with
+  | nil => intro rem _; simp [runJ]
+  | cons t ts ih =>
+    intro rem h
+    simp only [List.flatMap_cons, List.filter_append, List.append_eq_nil_iff] at h
+    simp only [runJ, List.flatten_cons, List.filter_append, List.append_eq_nil_iff]
+    refine ⟨?_, ih _ h.2⟩
+    show (joinOut (rem ++ t.2) t.1).filter (fun x => x.1 = k) = []
+    rw [aux_joinOut_filter, h.1]
+    simp [joinOut]
+
+theorem aux_timely_no_late_metadata (k : κ) (ts : List (List (κ × V) × List (κ × M))) :
+    ∀ (seen : List κ), k ∈ seen → Timely seen ts →
+      (ts.flatMap (·.2)).filter (fun p => p.1 = k) = [] := by
+  induction ts with
+  | nil => intro seen _ _; simp
+  | cons t ts ih =>
+    intro seen hk ht
+    obtain ⟨h1, h2⟩ := ht
+    simp only [List.flatMap_cons, List.filter_append, List.append_eq_nil_iff]
+    refine ⟨?_, ih _ (List.mem_append_left _ hk) h2⟩
+    rw [List.filter_eq_nil_iff]
+    intro p hp
+    have := h1 p hp
+    simp only [decide_eq_true_eq]
+    intro e; exact this (e ▸ hk)
+
+theorem aux_runJ_once (k : κ) (m : M) (v : V) (ts : List (List (κ × V) × List (κ × M))) :
+    ∀ (rem : List (κ × M)) (seen : List κ), Timely seen ts →
+      (ts.flatMap (·.1)).filter (fun r => r.1 = k) = [(k, v)] →
+      rem.filter (fun p => p.1 = k) ++ (ts.flatMap (·.2)).filter (fun p => p.1 = k) = [(k, m)] →
+      (runJ rem ts).flatten.filter (fun x => x.1 = k) = [(k, (m, v))] := by
+  induction ts with
+  | nil => intro rem seen _ hr _; simp at hr
+  | cons t ts ih =>
+    intro rem seen ht hr hm
+    obtain ⟨_, h2⟩ := ht
+    simp only [List.flatMap_cons, List.filter_append] at hr hm
+    simp only [runJ, List.flatten_cons, List.filter_append]
+    have hout : (stepJ rem t.1 t.2).2.filter (fun x => x.1 = k) =
+        joinOut ((rem ++ t.2).filter fun p => p.1 = k) (t.1.filter fun r => r.1 = k) :=
+      aux_joinOut_filter (rem ++ t.2) t.1 k
+    by_cases hk : t.1.filter (fun r => r.1 = k) = []
+    · -- no response for `k` in this tick: nothing comes out, the metadata of `k` is kept
+      rw [hout, hk]
+      rw [hk, List.nil_append] at hr
+      have hkeep : (stepJ rem t.1 t.2).1.filter (fun p => p.1 = k) =
+          rem.filter (fun p => p.1 = k) ++ t.2.filter (fun p => p.1 = k) := by
+        simp only [stepJ, List.filter_filter, ← List.filter_append]
+        apply List.filter_congr
+        intro p _
+        by_cases e : p.1 = k
+        · have : k ∉ t.1.map Prod.fst := by
+            intro hmem
+            obtain ⟨r, hr1, hr2⟩ := List.mem_map.1 hmem
+            have : r ∈ t.1.filter (fun r => r.1 = k) := List.mem_filter.2 ⟨hr1, by simpa using hr2⟩
+            rw [hk] at this; cases this
+          simp [e, this]
+        · simp [e]
+      have := ih (stepJ rem t.1 t.2).1 _ h2 hr (by rw [hkeep, List.append_assoc]; exact hm)
+      have hj : ∀ X : List (κ × M), joinOut X ([] : List (κ × V)) = [] := by
+        intro X; induction X <;> simp_all [joinOut]
+      rw [hj, List.nil_append]
+      exact this
+    · -- the response for `k` is in this tick
+      have hlen := congrArg List.length hr
+      simp only [List.length_append, List.length_cons, List.length_nil] at hlen
+      have hpos : 0 < (t.1.filter fun r => r.1 = k).length := List.length_pos_iff.2 hk
+      have hrest : (ts.flatMap (·.1)).filter (fun r => r.1 = k) = [] :=
+        List.eq_nil_of_length_eq_zero (by omega)
+      rw [hrest, List.append_nil] at hr
+      have hkin : k ∈ seen ++ t.1.map Prod.fst := by
+        apply List.mem_append_right
+        have : (k, v) ∈ t.1.filter (fun r => r.1 = k) := by rw [hr]; simp
+        exact List.mem_map.2 ⟨(k, v), (List.mem_filter.1 this).1, rfl⟩
+      have hlate := aux_timely_no_late_metadata k ts _ hkin h2
+      rw [hlate, List.append_nil, ← List.filter_append] at hm
+      rw [hout, hm, hr, aux_runJ_none k ts _ hrest]
+      simp [joinOut]
+
+/-- `join_responses` over a whole run, for every sequence of ticks respecting the documented
+contract: if exactly one metadata entry `(k, m)` and exactly one response `(k, v)` arrive for key
+`k` (in any ticks allowed by the contract), the outputs of the whole run contain exactly one
+element for `k`, and it pairs that response with that metadata. -/
+theorem join_run_matches_exactly_once (k : κ) (m : M) (v : V)
+    (ts : List (List (κ × V) × List (κ × M))) (ht : Timely [] ts)
+    (hr : (ts.flatMap (·.1)).filter (fun r => r.1 = k) = [(k, v)])
+    (hm : (ts.flatMap (·.2)).filter (fun p => p.1 = k) = [(k, m)]) :
+    (runJ [] ts).flatten.filter (fun x => x.1 = k) = [(k, (m, v))] :=
+  aux_runJ_once k m v ts [] [] ht hr (by simpa using hm)
+
+/-- a key without a response never produces an output (its metadata just waits) -/
+theorem join_run_no_response_no_output (k : κ) (ts : List (List (κ × V) × List (κ × M)))
+    (hr : (ts.flatMap (·.1)).filter (fun r => r.1 = k) = []) :
+    (runJ ([] : List (κ × M)) ts).flatten.filter (fun x => x.1 = k) = [] :=
+  aux_runJ_none k ts [] hr
+
 end Join
 
 /-! ## Non-vacuity -/
@@ -737,6 +869,13 @@ example : runJ ([] : List (Nat × Nat)) [(([] : List (Nat × Nat)), [(1, 100), (
     = [[], [(2, (200, 7))], [(1, (100, 5))]] := by decide
 example : Timely (M := Nat) (V := Nat) [] [([], [(1, 100), (2, 200)]), ([(2, 7)], []), ([(1, 5)], [])] := by
   simp [Timely]
+/-- the hypotheses of `join_run_matches_exactly_once` on a concrete three-tick run -/
+example : (runJ ([] : List (Nat × Nat)) [([], [(1, 100), (2, 200)]), ([(2, 7)], []), ([(1, 5)], [])]).flatten.filter
+    (fun x => x.1 = 1) = [(1, (100, 5))] :=
+  join_run_matches_exactly_once 1 100 5 _ (by simp [Timely]) (by decide) (by decide)
+/-- the cross-key order dependence on the model (`min = max = 2`) -/
+example : runW 2 2 ({} : St Nat Nat Nat) [[(0, .ok 1), (1, .ok 2), (1, .ok 3), (0, .ok 4)]] = [[(0, 1), (1, 2), (1, 3), (0, 4)]] ∧
+    runW 2 2 ({} : St Nat Nat Nat) [[(0, .ok 1), (1, .ok 2), (1, .ok 3)], [(0, .ok 4)]] = [[(1, 2), (1, 3)], [(0, 1), (0, 4)]] := by decide
 end Examples
 section MinEqMax
 variable {κ V E : Type} [DecidableEq κ]
